@@ -45,11 +45,13 @@ func (t *TransactionCancelTimer) Start() error {
 			if t.fnc != nil {
 				t.fnc()
 			}
+			verifhook.Point("timer.exit")
 		case <-t.done:
 			// Stop the timer
 			log.Infof("TransactionCancelTimer stopped")
 			verifhook.Point("timer.stopped")
 			t.done = nil
+			verifhook.Point("timer.exit")
 		}
 	}()
 
